@@ -100,6 +100,6 @@ def handle_queries(tier):
     return qs
 
 MANIFEST = {
-    "text": "PARTIAL: (1) the protocol half of close: for every protocol, skeletons with blocked senders/receivers (also several on one context), in-flight transfers and queued messages followed by close: each pending user operation completes exactly once, no lock stays held, teardown releases everything; (2) handle invalidation in the real core/socket.c: nni_sock_find for ANY id and any closed/device flags, and the context life cycle (open/find/close/rele words): after close no id resolves to the context, ctx_fini runs exactly once and never while an operation holds a reference; (3) a dial owned by a user operation is completed when the dial ends with a close/cancel/stop result.",
+    "text": "PARTIAL: (1) the protocol half of close: for every protocol, skeletons with blocked senders/receivers (also several on one context), in-flight transfers and queued messages followed by close: each pending user operation completes exactly once, no lock stays held, teardown releases everything; (2) handle invalidation in the real core/socket.c: nni_sock_find for ANY id and any closed/device flags, and the context life cycle (open/find/close/rele words): after close no id resolves to the context, ctx_fini runs exactly once and never while an operation holds a reference; (3) a dial owned by a user operation is completed when the dial ends with a close/cancel/stop result. Also nng_ctx_close of a REP context with a reply queued behind a busy connection and / or the next receive pending (both end with NNG_ECLOSED, the context leaves the socket's and the connection's waiter lists), creation of dialers / listeners with each step failing (no id resolves to an endpoint that was not created), and close of a TCP stream dialer with dials queued.",
     "note": "The socket-level shutdown (waiting for pipes/contexts), endpoint/pipe handle tables, the reaper and termination under real thread interleavings are outside this technique and are not claimed.",
 }
